@@ -408,6 +408,8 @@ func (r *Run) snapshotTasks() []*Task {
 }
 
 func (r *Run) apply(e event) {
+	// votes for "durably blocked" count consecutive probes within one stretch of running only
+	e.t.blockVotes = 0
 	switch e.kind {
 	case evPark:
 		e.t.state = stParked
@@ -630,6 +632,7 @@ func (r *Run) RunToQuiescence() {
 		r.last = t
 		r.cur = t
 		t.state = stRunning
+		t.blockVotes = 0
 		t.pred = nil
 		t.resume <- struct{}{}
 	}
